@@ -735,6 +735,47 @@ def r10(k: Kit) -> None:
                   k.loc(fi, r), g.describe_path(w) if w else None)
 
 
+def r11(k: Kit) -> None:
+    """Position arithmetic of SFTPClientFile.seek."""
+    from ..absint import evaluate, Obj, NotEvaluable
+    rep = k.rep
+    idx = k.idx
+    rep.rule('C12.R11', 'SFTPClientFile.seek evaluated over the current '
+             'position {unknown (append mode), 0, 5} x {SEEK_SET, SEEK_CUR, '
+             'SEEK_END}: the new position is offset, position + offset (end '
+             'of file + offset only when the position is unknown) and end + '
+             'offset - position 0 is a position, not "unknown"')
+    fi = k.func('sftp.SFTPClientFile.seek')
+    body = [st for st in fi.node.body if not (
+        isinstance(st, ast.Expr) and isinstance(st.value, ast.Constant))]
+    consts = {nm: idx.fold_name(fi.module, nm)
+              for nm in ('SEEK_SET', 'SEEK_CUR', 'SEEK_END')}
+    bad = None
+    n = 0
+    for cur in (None, 0, 5):
+        for nm, whence in consts.items():
+            n += 1
+            try:
+                o = evaluate(idx, fi.module, body,
+                             {'self._offset': cur, 'self._handle': b'H'},
+                             {'offset': 4, 'from_what': whence},
+                             lambda f, a, e: 100 if f == 'self._end'
+                             else Obj('x'))
+            except NotEvaluable as exc:
+                rep.error('C12.R11', key(fi, 'not-evaluable'), str(exc))
+                return
+            want = {'SEEK_SET': 4, 'SEEK_CUR': (100 if cur is None else cur)
+                    + 4, 'SEEK_END': 104}[nm]
+            got = o.value if o.kind == 'return' else o.kind
+            if got != want and bad is None:
+                bad = (f'position {cur!r}, seek(4, {nm}): {got!r}, expected '
+                       f'{want} - the next read() returns the wrong bytes '
+                       'and write() lands past the end, silently')
+    rep.count('eval.seek_states', n)
+    rep.check(bad is None, 'C12.R11', key(fi, 'seek table'), f'{n} states',
+              str(bad), fi.loc(fi.node))
+
+
 def run(idx, rep, tier):
     k = Kit(idx, rep)
     rep.assumptions += NOT_DECIDED
@@ -748,3 +789,4 @@ def run(idx, rep, tier):
     r8(k)
     r9(k)
     r10(k)
+    r11(k)
